@@ -73,6 +73,15 @@ var CustomReplays = map[string]func(ctx *RunCtx, e Entry, v engine.Violation, di
 
 func Register(c *Check) { Registry[c.ID] = c }
 
+// replayRoot: where replay directories are written (VERIF_REPLAY_ROOT lets concurrent runs against
+// scratch clones keep their replays apart; the registered commands use /verif/replays).
+func replayRoot() string {
+	if d := os.Getenv("VERIF_REPLAY_ROOT"); d != "" {
+		return d
+	}
+	return filepath.Join(VerifRoot, "replays")
+}
+
 // KnownFinding is one line of known_findings.jsonl.
 type KnownFinding struct {
 	Status   string `json:"status"` // "known" | "fixed"
@@ -196,10 +205,10 @@ func Run(id, tier string, seed int) int {
 			fixed[k.ID] = k
 		}
 	}
-	os.RemoveAll(filepath.Join(VerifRoot, "replays", id))
+	os.RemoveAll(filepath.Join(replayRoot(), id))
 	// keep replay artefacts (Go files) out of the verif module
-	os.MkdirAll(filepath.Join(VerifRoot, "replays"), 0o755)
-	os.WriteFile(filepath.Join(VerifRoot, "replays", "go.mod"), []byte("module verifreplays\n\ngo 1.23\n"), 0o644)
+	os.MkdirAll(filepath.Join(replayRoot()), 0o755)
+	os.WriteFile(filepath.Join(replayRoot(), "go.mod"), []byte("module verifreplays\n\ngo 1.23\n"), 0o644)
 	var fatalErr error
 	if len(ch.Entries) > 0 {
 		fatalErr = runEntries(ctx)
@@ -394,7 +403,7 @@ func handleReport(ctx *RunCtx, e Entry, rep *engine.Report) {
 		}
 		seen[v.Label] = true
 		ctx.nViol++
-		dir := filepath.Join(VerifRoot, "replays", ctx.Check.ID, strconv.Itoa(ctx.nViol))
+		dir := filepath.Join(replayRoot(), ctx.Check.ID, strconv.Itoa(ctx.nViol))
 		vo := ViolationOut{Label: e.Func + "/" + v.Label, ReplayDir: dir, Detail: v.Detail}
 		ok, detail := replayNative(ctx, e, v, dir)
 		vo.Reproduced = ok
@@ -428,7 +437,7 @@ func validateWitnesses(ctx *RunCtx, e Entry, rep *engine.Report) {
 	if len(rep.Witnesses) == 0 {
 		return
 	}
-	dir := filepath.Join(VerifRoot, "replays", ctx.Check.ID, "witness-"+e.Func)
+	dir := filepath.Join(replayRoot(), ctx.Check.ID, "witness-"+e.Func)
 	os.MkdirAll(dir, 0o755)
 	var files []string
 	for i, w := range rep.Witnesses {
